@@ -1,8 +1,12 @@
 import MuduoVerif.Model.LogStream
 import Driver.Util
 /-! `drv_logstream`: the LogStream / Logger / formatSI / formatIEC model behind the line protocol of
-harness/logstream_drv.cc.  Environment lines (`< tid N`, `< now US`, `< errtext HEX`, `< src HEX LINE HEX`,
-`< dbl HEX`) precede the operation that consumes them. -/
+harness/logstream_drv.cc.  Environment lines (`< tid N` = gettid() on the emitting thread, `< ptid N` = gettid() on
+the driver's main thread, `< asserts 0|1` = built with NDEBUG or not, `< now US`, `< errtext HEX`,
+`< src HEX LINE HEX`, `< dbl HEX`) precede the operation that consumes them.  Thread kinds of `line` / `macro`:
+`main`, `thread` (muduo::Thread), `fork` (child of fork()), `raw0` / `raw1` (pthread_create'd thread, in a forked
+child so that an abort is contained; `raw0`: the log statement is its first muduo call, `raw1`: it called
+`CurrentThread::tid()` first). -/
 namespace Driver.LogstreamDrv
 open MuduoVerif.LogStream MuduoVerif.Gen.LogStream Driver
 
